@@ -222,8 +222,11 @@ func nodeOf(s tla.State) *histNode {
 	return n
 }
 
-func chainKey(ts []int64) string {
+// chainKey names a history state: the preamble length (which fixes the
+// deployment height) and the block times.
+func chainKey(pre int, ts []int64) string {
 	var sb strings.Builder
+	fmt.Fprintf(&sb, "%d:", pre)
 	for _, t := range ts {
 		fmt.Fprintf(&sb, "%d,", t)
 	}
@@ -237,7 +240,7 @@ func runBip68(c *vrun.Ctx) error {
 	err := model(c, "Bip68", 4, []string{"Mine"}, func(s tla.State) error {
 		n := nodeOf(s)
 		n.isLeaf = true
-		byKey[chainKey(n.chain)] = n
+		byKey[chainKey(n.pre, n.chain)] = n
 		nodes = append(nodes, n)
 		return nil
 	})
@@ -247,7 +250,7 @@ func runBip68(c *vrun.Ctx) error {
 	var leaves []*histNode
 	for _, n := range nodes {
 		if len(n.chain) > n.pre+1 {
-			p := byKey[chainKey(n.chain[:len(n.chain)-1])]
+			p := byKey[chainKey(n.pre, n.chain[:len(n.chain)-1])]
 			if p == nil {
 				return fmt.Errorf("Bip68.tla: history %v has no parent state in the dump", n.chain)
 			}
@@ -259,7 +262,9 @@ func runBip68(c *vrun.Ctx) error {
 			leaves = append(leaves, n)
 		}
 	}
-	sort.Slice(leaves, func(i, j int) bool { return chainKey(leaves[i].chain) < chainKey(leaves[j].chain) })
+	sort.Slice(leaves, func(i, j int) bool {
+		return chainKey(leaves[i].pre, leaves[i].chain) < chainKey(leaves[j].pre, leaves[j].chain)
+	})
 	st := newStats()
 	var fe firstErr
 	done := map[*histNode]bool{}
@@ -297,7 +302,7 @@ func runBip68(c *vrun.Ctx) error {
 			if h < pre {
 				continue
 			}
-			n := byKey[chainKey(leaf.chain[:h+1])]
+			n := byKey[chainKey(pre, leaf.chain[:h+1])]
 			if n == nil {
 				fe.set(fmt.Errorf("Bip68.tla: no state for history %v", leaf.chain[:h+1]))
 				return
